@@ -1,5 +1,6 @@
 import VrlModel.Search.Wire
 import VrlModel.Search.Visitor
+import VrlModel.Search.Match
 
 /-! Line-protocol handlers of C30 (`c30.*`, `o.c30`) and C31 (`c31.*`, `o.c31`). -/
 namespace Driver.SearchOps
@@ -12,6 +13,100 @@ def showParse : ParseOut → String
   | .err => "err"
   | .panic => "panic"
   | .oof => "oof"
+
+/-- the instance of the third-party primitives the driver runs the model with: reference float
+    printing, the reference glob matcher, identity for `from_utf8_lossy` (inputs are checked to be
+    valid UTF-8), no timestamps (events containing one are out of the model). -/
+def E : Env := { F := F, R := Glob.engine, lossy := id, tsText := fun _ => [] }
+
+def validUtf8 : List Nat → Bool
+  | [] => true
+  | b :: r =>
+    if b < 0x80 then validUtf8 r
+    else
+      let ba := ByteArray.mk ((b :: r).map (·.toUInt8)).toArray
+      (String.fromUTF8? ba).isSome
+
+mutual
+  /-- inside the model: no timestamp, every byte string valid UTF-8 -/
+  partial def valueInModel : Value → Bool
+    | .ts _ => false
+    | .bytes b => validUtf8 b
+    | .regex b => validUtf8 b
+    | .arr a => listInModel a
+    | .obj m => mapInModel m
+    | _ => true
+  partial def listInModel : VList → Bool
+    | .nil => true
+    | .cons v vs => valueInModel v && listInModel vs
+  partial def mapInModel : VMap → Bool
+    | .nil => true
+    | .cons k v m => validUtf8 k && valueInModel v && mapInModel m
+end
+
+mutual
+  partial def valueAscii : Value → Bool
+    | .bytes b => b.all (· < 128)
+    | .regex b => b.all (· < 128)
+    | .arr a => listAscii a
+    | .obj m => mapAscii m
+    | _ => true
+  partial def listAscii : VList → Bool
+    | .nil => true
+    | .cons v vs => valueAscii v && listAscii vs
+  partial def mapAscii : VMap → Bool
+    | .nil => true
+    | .cons k v m => k.all (· < 128) && valueAscii v && mapAscii m
+end
+
+def leafUsesWord : Leaf → Bool
+  | .term a _ | .quoted a _ | .pfx a _ | .wildcard a _ =>
+    (normalizeFields a).any fun f => match f with | .default _ => true | _ => false
+  | _ => false
+
+def leafAscii : Leaf → Bool
+  | .term _ v | .quoted _ v | .pfx _ v | .wildcard _ v => v.all (·.toNat < 128)
+  | _ => true
+
+mutual
+  /-- the word-boundary regex is only given a reference for ASCII text -/
+  partial def wordsAscii : QNode → Bool
+    | .leaf l => !leafUsesWord l || leafAscii l
+    | .neg n => wordsAscii n
+    | .bool _ ns => wordsAsciiL ns
+  partial def wordsAsciiL : QList → Bool
+    | .nil => true
+    | .cons n ns => wordsAscii n && wordsAsciiL ns
+  partial def usesWord : QNode → Bool
+    | .leaf l => leafUsesWord l
+    | .neg n => usesWord n
+    | .bool _ ns => usesWordL ns
+  partial def usesWordL : QList → Bool
+    | .nil => false
+    | .cons n ns => usesWord n || usesWordL ns
+end
+
+def showMatch : MatchOut → String
+  | .ok true => "true"
+  | .ok false => "false"
+  | .err => "err"
+  | .panic => "panic"
+
+def showPathOut : PathOut → String
+  | .ok p => "ok\t" ++ _root_.Wire.showPath p
+  | .err => "err"
+  | .panic => "panic"
+
+/-- the observed parse of the query: `ok <tree>` | `err` | `panic` -/
+def parseObs (s : String) : Option (Option QNode) :=
+  if s.startsWith "ok " then (treeOfString (_root_.Wire.dropPrefix s 3)).map some
+  else if s == "err" || s == "panic" then some none
+  else none
+
+def modelMatch (t : QNode) (ev : Value) : String :=
+  if !valueInModel ev then "oom"
+  else if usesWord t && !(wordsAscii t && valueAscii ev) then "oom"
+  else showMatch (matchQuery E t ev)
 
 def handle (op : String) (args : List String) : Option String :=
   match op, args with
@@ -26,6 +121,14 @@ def handle (op : String) (args : List String) : Option String :=
     match F.parse s with
     | none => pure "err"
     | some b => pure (_root_.Wire.hex16 b ++ "\t" ++ hexOfStr (F.toText b))
+  | "c31.match", [_q, ev, "|", tree] => do
+    let ev ← _root_.Wire.valueOfString ev
+    match ← parseObs tree with
+    | none => pure (if tree == "panic" then "panic" else "err")
+    | some t => pure (modelMatch t ev)
+  | "c31.path", [t] => do
+    let t ← strOfHex t
+    pure (showPathOut (parseValuePath t))
   | _, _ => none
 
 end Driver.SearchOps
